@@ -30,7 +30,41 @@ fn main() {
             }
         }
     }
-    writeln!(f, "{}", serde_json::json!({"n": n, "prog": prog, "argv": &args[1..], "path_listing": listing, "cwd": std::env::current_dir().ok()})).unwrap();
+    // for `pack build`: what every --buildpack directory holds at the time of the call
+    let mut bp_listings = serde_json::Map::new();
+    if prog == "pack" {
+        for (i, a) in args.iter().enumerate() {
+            if a == "--buildpack" {
+                if let Some(p) = args.get(i + 1) {
+                    let base = std::path::Path::new(p);
+                    if base.is_dir() {
+                        let mut entries = Vec::new();
+                        fn walk2(base: &std::path::Path, d: &std::path::Path, out: &mut Vec<String>) {
+                            if let Ok(rd) = std::fs::read_dir(d) {
+                                for e in rd.flatten() {
+                                    let p = e.path();
+                                    let rel = p.strip_prefix(base).unwrap().to_string_lossy().to_string();
+                                    let md = std::fs::symlink_metadata(&p).unwrap();
+                                    if md.file_type().is_symlink() {
+                                        out.push(format!("{rel} -> {}", std::fs::read_link(&p).unwrap().display()));
+                                    } else if md.is_dir() {
+                                        out.push(format!("{rel}/"));
+                                        walk2(base, &p, out);
+                                    } else {
+                                        out.push(rel);
+                                    }
+                                }
+                            }
+                        }
+                        walk2(base, base, &mut entries);
+                        entries.sort();
+                        bp_listings.insert(p.clone(), serde_json::json!(entries));
+                    }
+                }
+            }
+        }
+    }
+    writeln!(f, "{}", serde_json::json!({"n": n, "prog": prog, "argv": &args[1..], "path_listing": listing, "buildpack_listings": bp_listings, "cwd": std::env::current_dir().ok()})).unwrap();
     let fail: Vec<usize> = std::env::var("FAKECLI_FAIL").unwrap_or_default().split(',').filter_map(|x| x.parse().ok()).collect();
     if fail.contains(&n) {
         eprintln!("fakecli: scripted failure of invocation {n}");
